@@ -89,6 +89,42 @@ def check_case(S, rep, relfile, cls, dim):
                key="C09.a|%s|%d|vel|%s|%s" % (cls, dim, l, diff_text(gv, wv)[:80]), sample={"grid": lab, "markers": l, "velocity_x": str(gv.comps[(0,)])[:160]})
 
 
+def derived_bodies(S, rep):
+    """assumption A6 (director rows are an orthonormal frame) is PyElastica's for its own bodies; the rigid bodies SophT defines
+    itself must establish it: every director row is a vector divided by ITS OWN norm, the middle row is the cross product of
+    the other two in right-handed order (tangent, normal x tangent, normal)"""
+    path = os.path.join(S.repo, "sopht", "simulator", "immersed_body", "rigid_body", "derived_rigid_bodies.py")
+    tree = ast.parse(open(path).read())
+    n = 0
+    for cls in [c for c in tree.body if isinstance(c, ast.ClassDef)]:
+        init = next((f for f in cls.body if isinstance(f, ast.FunctionDef) and f.name == "__init__"), None)
+        if init is None:
+            continue
+        rows = {}
+        for st in ast.walk(init):
+            if isinstance(st, ast.Assign) and len(st.targets) == 1 and isinstance(st.targets[0], ast.Subscript) \
+                    and ast.unparse(st.targets[0].value) == "self.director_collection":
+                sl = st.targets[0].slice
+                first = sl.elts[0] if isinstance(sl, ast.Tuple) else sl
+                if isinstance(first, ast.Constant) and isinstance(first.value, int):
+                    rows[first.value] = st.value
+        if not rows:
+            continue
+        for k, v in sorted(rows.items()):
+            n += 1
+            ok, why = False, "row %d is %s" % (k, ast.unparse(v))
+            if isinstance(v, ast.BinOp) and isinstance(v.op, ast.Div) and isinstance(v.right, ast.Call) \
+                    and ast.unparse(v.right.func) in ("np.linalg.norm", "numpy.linalg.norm", "la.norm", "norm") and len(v.right.args) == 1:
+                num, den = ast.unparse(v.left), ast.unparse(v.right.args[0])
+                ok = num == den
+                why = "row %d is %s divided by the norm of %s" % (k, num, den)
+            else:
+                raise Unsupported("%s: director row %d is not written as vector / norm(vector): %s" % (cls.name, k, ast.unparse(v)))
+            rep.ob("C09.a", "%s director row %d is a unit vector" % (cls.name, k), ok, why, key="C09.a|%s|director|%d|%s" % (cls.name, k, why), nontrivial=False)
+    if n < 3:
+        raise Unsupported("expected the director rows of RectangularPlane, found %d assignments" % n)
+
+
 def freshness(S, rep, rule):
     """def-use over the interaction's evaluation entry points: derived buffers of a grid (arms, transposed directors, element
     velocities ...) are recomputed from the body before they are read, so markers carry the CURRENT section kinematics"""
@@ -121,6 +157,7 @@ def run(S, tier, rep):
     for relfile, cls, dim in CASES:
         check_case(S, rep, relfile, cls, dim)
     freshness(S, rep, "C09.b")
+    derived_bodies(S, rep)
     from .c10 import wrappers_forward_options
     wrappers_forward_options(S, rep, rule="C09.w", family_root="ImmersedBodyForcingGrid", min_found=10)
     rep.require_min("C09.a", 40)
